@@ -181,9 +181,16 @@ def decimal_backends(f, interesting):
         if not cn.endswith(interesting):
             continue
         feasible = block_feasible(f, bb)
-        if False:
-            if tr is False:
-                feasible = False
+        if feasible:
+            # second reading, per path instead of per dominator (a `match (radix, base)` with guards joins edges):
+            # some path to the call must be consistent with radix = base = 10.  Both readings over-approximate what
+            # is reachable, so a back-end excluded by either is excluded.
+            from rules import dispatch as _dp
+            from rules.core import enum_paths as _ep
+            try:
+                feasible = any(all(_dp.holds(e, p, 10, 10) for e, p in atoms) for _t, atoms in _ep(f, 0, {bb}))
+            except AnchorMissing:
+                pass
         if feasible:
             out.add("::".join(cn.split("::")[-2:]))
     return out
